@@ -175,6 +175,10 @@ impl<S: Sample> FrameRenderHandle<S> {
 
     pub fn reset(&self) -> FrameRender<S> {
         let mut render_ref = self.render.lock().unwrap();
+        #[cfg(jxl_oxide_verif)]
+        if matches!(*render_ref, FrameRender::Done(_) | FrameRender::Blended(_)) {
+            crate::verif::probe_event(self.frame.idx, crate::verif::ProbeKind::ResetFinished);
+        }
         std::mem::replace(&mut *render_ref, FrameRender::None)
     }
 
